@@ -7,8 +7,14 @@ impl BS {
             !o.fs[k0].leaf().bit_at(x), f.fs[k0].leaf().bit_at(x),
             forall|j: int| 0 <= j < o.n(k0) && j != x ==> #[trigger] f.fs[k0].leaf().bit_at(j) == o.fs[k0].leaf().bit_at(j),
         ensures f.inv1(), f.inv2(), o.cov(k0, x), !f.cov(k0, x),
+            forall|k: int, y: int| 0 <= k <= k0 ==> #[trigger] f.cov(k, y) == (o.cov(k, y) && !is_anc(k, y, k0, x)),
     {
         assert forall|k: int| 0 <= k <= o.m implies #[trigger] f.n(k) == o.n(k) by {}
+        assert(o.added(f, k0, x)) by {
+            assert forall|k: int, q: int| !(k == k0 && q == x) implies #[trigger] o.a(k, q) == f.a(k, q) by {
+                if k == k0 { if 0 <= q < o.n(k0) { assert(f.fs[k0].leaf().bit_at(q) == o.fs[k0].leaf().bit_at(q)); } }
+            }
+        }
         assert(f.fewer(o)) by {
             assert forall|k: int, q: int| #[trigger] f.a(k, q) implies o.a(k, q) by {
                 if k == k0 { if q != x { assert(f.fs[k0].leaf().bit_at(q) == o.fs[k0].leaf().bit_at(q)); } }
@@ -22,6 +28,7 @@ impl BS {
         f.lemma_cov_frame(o, k0 + 1, k0 + 1, x / 2);
         assert(!o.cov(k0 + 1, x / 2));
         assert(!f.a(k0, x));
+        BS::lemma_view_removed(o, f, k0, x);
     }
 
     pub proof fn lemma_alloc_case_b(s: BS, s1: BS, f: BS, k0: int, u: int)
@@ -34,7 +41,9 @@ impl BS {
             f.fs[k0].leaf().len == s1.fs[k0].leaf().len, 2 * u + 1 < s.n(k0),
             !f.fs[k0].leaf().bit_at(2 * u + 1),
             forall|j: int| 0 <= j < s.n(k0) && j != 2 * u + 1 ==> #[trigger] f.fs[k0].leaf().bit_at(j) == s1.fs[k0].leaf().bit_at(j),
+            forall|k: int, y: int| 0 <= k <= k0 + 1 ==> #[trigger] s1.cov(k, y) == (s.cov(k, y) && !is_anc(k, y, k0 + 1, u)),
         ensures f.inv1(), f.inv2(), s.cov(k0, 2 * u), !f.cov(k0, 2 * u),
+            forall|k: int, y: int| 0 <= k <= k0 ==> #[trigger] f.cov(k, y) == (s.cov(k, y) && !is_anc(k, y, k0, 2 * u)),
     {
         let q1 = 2 * u + 1;
         assert(s1.fs[k0] == s.fs[k0]);
@@ -64,5 +73,7 @@ impl BS {
         }
         f.lemma_cov_frame(s1, k0 + 1, k0 + 1, u);
         assert(!f.a(k0, 2 * u));
+        assert(sbuddy(2 * u) == q1);
+        BS::lemma_view_split(s, s1, f, k0, u, 2 * u);
     }
 }
